@@ -426,6 +426,25 @@ func (g *Gen) setup() {
 }
 
 func (g *Gen) step() {
+	nq := len(g.r.queries)
+	defer func() {
+		// random access into the result queries of batch operations (Count, EntityAt at both
+		// ends and in between), before anything else is done with them
+		for k := nq; k < len(g.r.queries); k++ {
+			if q := g.r.queries[k]; q.batch && !q.closed && g.rng.chance(60) {
+				out := g.do(fmt.Sprintf("qc %d", k))
+				cnt := 0
+				if len(out) > 0 && strings.HasPrefix(out[0], "= ok ") {
+					cnt, _ = strconv.Atoi(out[0][5:])
+				}
+				if cnt > 0 {
+					g.do(fmt.Sprintf("qa %d %d", k, cnt-1))
+					g.do(fmt.Sprintf("qa %d 0", k))
+					g.do(fmt.Sprintf("qa %d %d", k, g.rng.intn(cnt)))
+				}
+			}
+		}
+	}()
 	faulty := g.rng.chance(g.p.fault)
 	// weighted category choice
 	total := 0
@@ -1352,7 +1371,40 @@ func (g *Gen) genDumpLoad(faulty bool) {
 // doReset resets the world and, often, looks a registered resource type up again by its type
 // (out of registration order): ids obtained before a reset stay valid
 func (g *Gen) doReset() {
+	// component sets of entities that have a relation, before the reset
+	type relSet struct {
+		comps []int
+		rel   int
+	}
+	sets := []relSet{}
+	for _, i := range g.aliveIdx() {
+		cs := g.compsOf(i)
+		if r, ok := g.relOfSet(cs); ok && len(sets) < 3 {
+			sets = append(sets, relSet{cs, r})
+		}
+	}
 	g.do("reset")
+	if len(sets) > 0 && len(g.r.cfilters) > 0 && g.rng.chance(60) {
+		// the tables retired by the reset are re-used for other targets; then look through the
+		// filters that were registered before the reset
+		g.do("new 0")
+		t1 := len(g.r.handles) - 1
+		g.do("new 0")
+		t2 := len(g.r.handles) - 1
+		for k, s := range sets {
+			t := t1
+			if k%2 == 1 {
+				t = t2
+			}
+			g.do(fmt.Sprintf("bld I %s R %d new T e%d", idsStr(s.comps), s.rel, t))
+		}
+		n := len(g.r.cfilters)
+		for k := n - 1; k >= 0 && k >= n-5; k-- {
+			g.do(fmt.Sprintf("qall C %d", k))
+		}
+		g.do("snapshot")
+		return
+	}
 	if g.rng.chance(30) {
 		// a second reset of a world in which nothing was created since the first: resources
 		// (and registered filters) added in between must be gone as well
